@@ -86,6 +86,43 @@ def sstep (H : Bytes → K) (s : Sess K) : SOp → Sess K
 
 def srun (H : Bytes → K) (sops : List SOp) : Sess K := sops.foldl (sstep H) {}
 
+/-- One file of one `tahoe backup` run, as far as the database is concerned: tahoe_backup.py
+    `BackerUpper.upload` → `check_backupdb_file` (`use_timestamps = not options["ignore-timestamps"]`,
+    `check_file`, `was_uploaded`, `should_check`, the `t=check` POST answering `healthy`, `did_check_healthy`)
+    and, when the file must be uploaded, the PUT yielding `newcap` followed by `bdb_results.did_upload(newcap)`.
+    An `--ignore-timestamps` run goes through the very same calls (so that the stale row is replaced).
+    Result: the session, whether the file was uploaded, and the cap the run uses for it. -/
+def toolFileStep (H : Bytes → K) (s : Sess K) (path : Bytes) (st : Stat) (ignoreTs : Bool) (newcap : Bytes)
+    (healthy : Bool) (now : Int) (rnd : Nat) : Sess K × Bool × Bytes :=
+  let k := s.fres.length
+  let s1 := sstep H s (.check path st (!ignoreTs) now rnd)
+  match s1.fres[k]? with
+  | none => (s1, true, newcap)                       -- unreachable: `check` appends the k-th result
+  | some r =>
+    match r.wasUploaded with
+    | none => (sstep H s1 (.uploadVia k newcap now), true, newcap)
+    | some c =>
+      if r.shouldCheck = false then (s1, false, c)
+      else if healthy then (sstep H s1 (.healthyVia k now), false, c)
+      else (sstep H s1 (.uploadVia k newcap now), true, newcap)
+
+/-- One directory of one run: `BackerUpper.upload_directory` → `check_backupdb_directory` (`check_directory`,
+    `was_created`, `should_check`, `t=check`, `did_check_healthy`) and, when it must be created, `mkdir` yielding
+    `newdircap` followed by `r.did_create(newdircap)`. -/
+def toolDirStep (H : Bytes → K) (s : Sess K) (contents : List Entry) (newdircap : Bytes) (healthy : Bool)
+    (now : Int) (rnd : Nat) : Sess K × Bool × Bytes :=
+  let k := s.dres.length
+  let s1 := sstep H s (.checkDir contents now rnd)
+  match s1.dres[k]? with
+  | none => (s1, true, newdircap)
+  | some (r, _) =>
+    match r.wasCreated with
+    | none => (sstep H s1 (.createVia k newdircap now), true, newdircap)
+    | some d =>
+      if r.shouldCheck = false then (s1, false, d)
+      else if healthy then (sstep H s1 (.dirHealthyVia k now), false, d)
+      else (sstep H s1 (.createVia k newdircap now), true, newdircap)
+
 /-- the (path, stat) pairs seen by the `check` steps of a session, in order: what each result object sampled -/
 def checksOf : List SOp → List (Bytes × Stat)
   | [] => []
